@@ -31,6 +31,28 @@ Section C20.
     validate key' user' now (issue key user t0 d) = false.
   Proof. destruct IC. intros. apply issued_expires; assumption. Qed.
 
+  (* the same without a premise on the sum's upper end: a duration that would carry the expiry
+     past the largest instant gives a token that expires there (repair of F97); the premise left
+     excludes only durations below -2^63 + t0 *)
+  Theorem token_validates_iff_every_duration : forall key user t0 d key' user' now,
+    - 2 ^ 63 <= t0 + duration_of d ->
+    validate key' user' now (issue key user t0 d) = true <->
+    key' = key /\ user' = user /\ now < expiry_of t0 d.
+  Proof. destruct IC. intros. apply issued_validates_iff_gen; assumption. Qed.
+
+  (* the issuing server (repair of F96): the server name travels as the macaroon's location, which
+     the signature does not cover; a validating server that gives its name refuses every token
+     whose location is another name, and accepts nothing that validation by key, user and time
+     refuses *)
+  Theorem token_of_another_server_refused : forall srv loc key user now t,
+    srv <> [] -> loc <> srv -> validate_at sigT mac0 macS sig_eqb srv loc key user now t = false.
+  Proof. destruct IC. intros. apply validate_at_other_server; assumption. Qed.
+
+  Theorem server_check_only_restricts : forall srv loc key user now t,
+    validate_at sigT mac0 macS sig_eqb srv loc key user now t = true ->
+    validate key user now t = true /\ (srv = [] \/ loc = srv).
+  Proof. destruct IC. intros. apply validate_at_sound; assumption. Qed.
+
   Theorem token_reveals_user : forall key user t0 d, user_of sigT (issue key user t0 d) = user.
   Proof. reflexivity. Qed.
 
@@ -115,3 +137,6 @@ Print Assumptions altered_token_refused.
 Print Assumptions unknown_caveat_token_refused.
 Print Assumptions missing_caveat_token_refused.
 Print Assumptions other_user_refused.
+Print Assumptions token_validates_iff_every_duration.
+Print Assumptions token_of_another_server_refused.
+Print Assumptions server_check_only_restricts.
